@@ -324,6 +324,16 @@ func genJournal(r *rng, o genOpts) Journal {
 			}
 		}
 	}
+	if r.chance(5) {
+		// one name in two Unicode-equivalent spellings (precomposed Hangul syllables / conjoining jamo; the letter
+		// A-with-ring / the Angstrom sign): two distinct accounts for knut, which compares bytes (seeded change
+		// C09g-account-names-stored-in-nfc printed both in the composed form)
+		if r.chance(50) {
+			accounts = append(accounts, "Expenses:\uc2dd\ube44", "Expenses:\u1109\u1175\u11a8\u1107\u1175")
+		} else {
+			accounts = append(accounts, "Assets:\u00c5bo", "Assets:\u212bbo")
+		}
+	}
 	var j Journal
 	d0 := o.startDate
 	early := 0 // accrual windows may start before the first transaction: open and price earlier
@@ -454,6 +464,19 @@ func genJournal(r *rng, o genOpts) Journal {
 			t.Accrual = &Accrual{iv, dateStr(s), dateStr(e), accrualAcc}
 		}
 		j = append(j, t)
+		if t.Accrual == nil && r.chance(6) {
+			// the same purchase twice on one day (two coffees), or once more with a further booking: transactions that
+			// compare equal, or equal up to the length of the shorter one, wherever a day's transactions are ordered
+			// (mechanical mutants of transaction.Compare - `i < len(a) || i < len(b)`, `i <= len` - ran past the end of the
+			// postings only for such pairs and survived every check)
+			dup := t
+			dup.Bookings = append([]Booking{}, t.Bookings...)
+			if r.chance(40) {
+				b0 := t.Bookings[0]
+				dup.Bookings = append(dup.Bookings, Booking{b0.Credit, b0.Debit, randAmount(r, false), b0.Com})
+			}
+			j = append(j, dup)
+		}
 		if t.Accrual == nil && r.chance(15) {
 			// the exact reverse booking on the same or a later day: positions return to an earlier
 			// level, often exactly zero (a position that is closed out, a commodity that is fully sold;
